@@ -266,6 +266,14 @@ def gen_k_plan(run_seed: int, hashseed: int = 0, catalogue=None, p_backend_c: fl
         for n, t in inputs.items():
             rv[n] = [gen_value(rng) for _ in t["entries"]]
         revalues.append(rv)
+    capacity = rng.choice(CAPACITIES)
+    heap_knobs = gen_heap_knobs(rng)
+    backend_c = rng.random() < p_backend_c
+    # electric-fence placement (drawn last so that older seeds keep their problem and inputs)
+    if rng.random() < 0.3:
+        heap_knobs["guard"] = True
+        if heap_knobs["realloc"] == "size_class":
+            heap_knobs["realloc"] = "move"
     return {
         "engine": "K",
         "run_seed": run_seed,
@@ -274,13 +282,13 @@ def gen_k_plan(run_seed: int, hashseed: int = 0, catalogue=None, p_backend_c: fl
         "expr": prob.get("expr"),
         "target": prob["target"],
         "input_indexes": prob["inputs"],
-        "capacity": rng.choice(CAPACITIES),
-        "heap": gen_heap_knobs(rng),
+        "capacity": capacity,
+        "heap": heap_knobs,
         "sizes": sizes,
         "classes": prob["classes"],
         "inputs": inputs,
         "revalues": revalues,
-        "backend_c": rng.random() < p_backend_c,
+        "backend_c": backend_c,
     }
 
 
